@@ -93,6 +93,8 @@ TUItemIgnored == IsEvent("UItemIgnored") /\ LET e == Log[l] IN
           /\ U!UpdateIgnoredItem(e.u) /\ UScalars(e, un[e.u]) /\ SkUnchanged /\ UNCHANGED <<ug, uoo>>
 TUReset == IsEvent("UReset") /\ LET e == Log[l] IN
           /\ U!UReset(e.u) /\ UScalars(e, un'[e.u]) /\ SkUnchanged
+          \* reset() = back to the original state: the results of the reset union have the images of a new union's results
+          /\ (Has(e, "imgs") => Chk("reset-restores-the-fresh-state", e.imgs = e.fresh))
           /\ ug' = UgSet([ug EXCEPT ![e.u] = IF GSup(@) THEN G!GReset(@, un[e.u].lgMaxK) ELSE @]) /\ GScalars(e, ug'[e.u])
           /\ uoo' = [uoo EXCEPT ![e.u] = FALSE]
 TUObs == IsEvent("UObs") /\ LET e == Log[l] IN
